@@ -3,6 +3,18 @@
 import json, sys
 pid, wt, out = sys.argv[1], sys.argv[2], sys.argv[3]
 n = sys.argv[4] if len(sys.argv) > 4 else "2"
+first = int(sys.argv[5]) if len(sys.argv) > 5 else 1
+import glob, re
+tried = []
+for d in sorted(glob.glob('/verif/seeded/%s-*' % pid)):
+    try:
+        m = json.load(open(d + '/meta.json'))
+        tried.append("- " + re.sub(r'\s+', ' ', m.get('summary', ''))[:400])
+    except Exception:
+        pass
+avoid = ""
+if tried and first > 1:
+    avoid = "\n\nOther engineers already delivered the following changes for this property; yours must be DIFFERENT in mechanism and location (another code path, another clause of the property, another kind of trigger):\n" + "\n".join(tried) + "\n"
 rec = None
 for l in open('/verif/properties.jsonl'):
     p = json.loads(l)
@@ -16,7 +28,8 @@ Here is a semantic property the system is supposed to guarantee:
 
 Task: produce {n} DIFFERENT realistic changes to the repository's non-test Go source (each one independent, each a separate patch) that BREAK this property while (a) still compiling, and (b) still passing the repository's existing tests for the affected packages (run them: `cd {wt} && GOFLAGS=-mod=mod go test -count=1 -vet=off ./<affected pkgs>/...` — no build tags; ignore tests that also fail/flake without your change, check by running them on the clean tree). The change should look like something a refactor, an optimisation or a plausible bug fix could introduce (a dropped or weakened guard, an off-by-one in a fence comparison, a skipped index/tombstone update, a stale cache returned, a reordered step, two sites that each look fine alone), and it must need something SPECIFIC to manifest — a particular interleaving, a crash or fault at a particular point, a multi-step sequence of operations, an unusual input — not something ordinary use or the first smoke test would expose at once. Do not edit or delete existing tests.
 
-For each change k = 1..{n} deliver in {out}/{pid}-<k>/:
+{avoid}
+Number your changes k = {first}..{first + int(n) - 1}. For each change k deliver in {out}/{pid}-<k>/:
  - patch.diff — `git diff` of the change (must apply to a clean checkout with `git apply`);
  - a demonstration: a Go test file (in-package `_test.go`, name it zz_seed_demo_test.go, say where it goes) or a small program, that FAILS with the change applied and PASSES on the clean tree; you must have run it both ways;
  - meta.json — {{"property": "{pid}", "summary": "...what was changed and why it breaks the property...", "needs_to_manifest": "...the specific schedule/fault/sequence/input...", "files_changed": [...], "demo": {{"file": "...", "dest_dir_in_repo": "...", "run": "go test -run ... ./pkg/..."}}, "existing_tests_run": "...command(s) you ran and that they passed..."}}.
